@@ -174,9 +174,19 @@ def run_check(prop, tier, replay_path=None):
             env = dict(os.environ); env["VERIF_ESCALATED"] = "1"
             escalation = {"changed_files": aff, "budget_s": budget}
             try:
-                pr = subprocess.run([sys.executable, str(C.VERIF / "check.py"), prop, "--tier", "thorough"], cwd=str(C.VERIF), env=env,
-                                    capture_output=True, text=True, errors="replace", timeout=budget)
-                out = pr.stdout.splitlines()
+                import signal
+                pr = subprocess.Popen([sys.executable, str(C.VERIF / "check.py"), prop, "--tier", "thorough"], cwd=str(C.VERIF), env=env,
+                                      stdout=subprocess.PIPE, stderr=subprocess.DEVNULL, text=True, errors="replace", start_new_session=True)
+                try:
+                    so, _ = pr.communicate(timeout=budget)
+                except subprocess.TimeoutExpired:
+                    try:
+                        os.killpg(pr.pid, signal.SIGKILL)      # the whole group: compilers and harness processes of the child too
+                    except OSError:
+                        pass
+                    pr.wait()
+                    raise
+                out = so.splitlines()
                 vl = [i for i, l in enumerate(out) if l.startswith("VIOLATION")]
                 escalation.update({"finished": True, "exit": pr.returncode, "wall_s": round(time.time() - t1, 1), "violations": len(vl)})
                 for i in vl[:6]:
